@@ -20,6 +20,9 @@ import sys,re
 ids=[l.strip() for l in sys.stdin if l.strip()]
 def key(i):
     m=re.search(r'-r(\d+)m',i); return (-(int(m.group(1)) if m else 1), i)
+import os
+skip=os.environ.get('SEED_SKIP','')
+if skip: ids=[i for i in ids if not re.search(skip,i)]
 print('\n'.join(sorted(ids,key=key)))" > $TMP
 {
 echo "# Seeded changes against the checks (lib/seed_regress.sh $TIER; /repo HEAD $HEAD)"
